@@ -375,6 +375,7 @@ def main_check(pid, tier, runs=None, budget=None, jobs=None, replay=None, eviden
     exit_code = 0
     lines = []
     n_known = n_new = 0
+    confirmed = unconfirmed = 0
     report = []
     for sig, lst in by_sig.items():
         k = match_known(known, pid, sig)
@@ -399,6 +400,13 @@ def main_check(pid, tier, runs=None, budget=None, jobs=None, replay=None, eviden
             vv = v
         path = write_replay(pid, small, vv)
         ok, outp = confirm_in_fresh_process(pid, path)
+        if not ok and small is not case:
+            # the minimised case does not reproduce in a fresh process (minimisation runs in this process, whose
+            # module state may differ): fall back to the case as found
+            os.remove(path)
+            path = write_replay(pid, case, v)
+            vv = v
+            ok, outp = confirm_in_fresh_process(pid, path)
         if not ok:
             # history dependence: state leaked from earlier decodes in the worker process
             hp = history_replay(pid, case, v)
@@ -406,27 +414,29 @@ def main_check(pid, tier, runs=None, budget=None, jobs=None, replay=None, eviden
                 print("VIOLATION property=%s replay=%s" % (pid, hp))
                 print("  clause=%s sig=%s occurrences=%d (depends on the decodes made before in the same process; history replay)" % (v["clause"], sig, len(lst)))
                 print("  " + v["msg"][:1500].replace("\n", "\n  "))
-                if exit_code == 0:
-                    exit_code = 1
+                confirmed += 1
                 report.append({"sig": sig, "known": False, "count": len(lst), "replay": hp, "reproduced": True, "history": True})
                 continue
         if not ok:
-            print("HARNESS-ERROR: replay %s does not reproduce %s in a fresh process:\n%s" % (path, sig, outp[-1500:]))
-            exit_code = max(exit_code, 2)
+            print("NOT-REPRODUCED: replay %s does not reproduce %s in a fresh process (neither the case nor the worker's history):\n%s" % (path, sig, outp[-600:]))
+            unconfirmed += 1
             report.append({"sig": sig, "known": False, "count": len(lst), "replay": path, "reproduced": False})
             continue
+        confirmed += 1
         print("VIOLATION property=%s replay=%s" % (pid, path))
         print("  clause=%s sig=%s occurrences=%d" % (vv["clause"], sig, len(lst)))
         print("  " + vv["msg"][:1500].replace("\n", "\n  "))
-        if exit_code == 0:
-            exit_code = 1
         report.append({"sig": sig, "known": False, "count": len(lst), "replay": path, "reproduced": True})
     if n_harness:
         print("HARNESS-ERROR: %d run(s) raised inside the machinery; first:\n%s" % (n_harness, harness[0]["error"][-3000:]))
-        exit_code = 2
+    if unconfirmed:
+        print("HARNESS-ERROR: %d violation signature(s) seen that do not reproduce from a replay file" % unconfirmed)
     if done == 0:
         print("HARNESS-ERROR: no run completed")
-        exit_code = 2
+    if confirmed:
+        exit_code = 1          # at least one violation with a replay that reproduces in a fresh process
+    elif n_harness or unconfirmed or done == 0:
+        exit_code = 2          # never a pass, never a violation
 
     wall = time.time() - t0
     if evidence:
